@@ -596,8 +596,16 @@ Definition iter_scan (m : rmeta) (nrows ndest : Z) (it : iter) : scan_out * iter
            end
   end.
 
-(* Conn.executeQuery with skip-metadata (conn.go:1439-1443): iter.meta = info.response (the result
-   metadata of the PREPARED response); iter.meta.pagingState = copy of the rows frame's *)
+(* Conn.executeQuery, case *resultRowsFrame with params.skipMeta (conn.go:1532-1541):
+     iter := &Iter{meta: x.meta, framer: framer, numRows: x.numRows}
+     iter.meta = info.response                              -- the WHOLE result metadata of the PREPARED
+                                                               response: flags, columns, colCount and
+                                                               actualColCount (tuple columns expanded; only
+                                                               readCol computes it, and a NO_METADATA rows frame
+                                                               has no column specs to run readCol on)
+     iter.meta.pagingState = copyBytes(x.meta.pagingState)  -- paging state of the rows frame
+   numRows and the row content are the rows frame's.  Exercised through the real executeQuery by the
+   session-scan-skip-meta cases (cmd/c04/exec.go: PREPARE + EXECUTE against the scripted node). *)
 Definition skip_meta_iter (prep_resp rows_meta : rmeta) : rmeta :=
   {| m_flags := m_flags prep_resp; m_paging := m_paging rows_meta; m_cols := m_cols prep_resp;
      m_colcount := m_colcount prep_resp; m_actual := m_actual prep_resp |}.
